@@ -664,6 +664,21 @@ class Inventory:
                             s.opaque = s.opaque or f'loop cursor {x[2]} is advanced by the {w}'
             for c in conds[-1:]:
                 s.opaque = s.opaque or opaque_container(c[0], self.facts.bodies.get(s.fn), self.lemma_applicable)
+            # a decision about the very slice indexed here was taken by a helper the provers do not read (`if is_scalar_document(value)`,
+            # `match ContainerKind::of(value)`): the bound may follow from it
+            if not s.opaque and terms:
+                bases = set()
+                for t in terms:
+                    for x in subterms(t):
+                        if x[0] == 'len':
+                            bases.add(norm(base_of(x[1])))
+                        elif is_call(x, 'Index::index') and x[2]:
+                            bases.add(norm(base_of(x[2][0])))
+                for c in getattr(self, '_cur_conds', ()) or ():
+                    for x in subterms(c[0]):
+                        if x[0] == 'call' and canon(x[1]).split('::')[-1] not in TRANSPARENT_CALLS and x[2] and \
+                                any(norm(base_of(a)) in bases for a in x[2] if isinstance(a, tuple)):
+                            s.opaque = s.opaque or f'a decision about this slice taken by {canon(x[1]).split("::")[-1]}()'
 
     def callee_always(self, name, variant):
         """Does a local callee return `variant` (Some/Ok) on every return path? (P-variant by callee summary)"""
@@ -692,6 +707,7 @@ class Inventory:
 
     def knowledge(self, body, p, e):
         K = Knowledge(body, p.conds[:e[6]], list(self.lemmas) + [self.lemma_facts(body)], [x for x in p.events if x[0] == 'call' and x[6] <= e[6]])
+        self._cur_conds = p.conds[:e[6]]
         if p.blocks and p.blocks[0] != 0:
             for (cur, ln) in self.loop_invariants(body).get(p.blocks[0], []):
                 K.pf.add_cmp('Le', cur, ln)
